@@ -28,4 +28,5 @@ let () =
   | "c15" -> per_line M_c15.line
   | "c02" -> per_line M_c02.line
   | "cdir" -> per_line M_cdir.line
+  | "cvol" -> per_line M_cvol.line
   | _ -> prerr_endline ("unknown mode " ^ mode); exit 2
